@@ -24,6 +24,7 @@ RULE = (
     "oracles: dump == explicit formatter, load(dump(m)) == m with exact types, dump(load(line)) == line.rstrip()+'\\n', "
     "and the same through Gateway.send / Gateway.listen. Non-trivial = payload contains ';' or a boundary id "
     "(99,100,254,255) or id-request/response with child != 255 or |type| >= 2^31; distinct = distinct case JSON."
+    ' Round 5: the schema/gateway may be built in a copied contextvars context or another thread (`ctx`), and the warm-up may contain ill-formed look-alikes of the message (each field replaced, or the line cut short).'
 )
 ASSUMPTIONS = [
     "MessageSchema with set_protocol(get_protocol(v)) is the codec entry point (as in the repository's tests)",
